@@ -66,7 +66,7 @@ def spec_names_in(t, decl_names, cache=None):
     return out
 
 
-def prune_hyps(specs, hyps, goal):
+def prune_hyps(specs, hyps, goal, extra=()):
     """Relevance filter (sound: proving from a subset of the hypotheses): drop hypotheses that talk about recursive
     spec functions which neither the goal nor the definitions it depends on mention."""
     import ast as _ast
@@ -77,7 +77,7 @@ def prune_hyps(specs, hyps, goal):
     for nm, sp in specs.items():
         deps[nm] = {n.func.id for n in _ast.walk(sp.body) if isinstance(n, _ast.Call) and isinstance(n.func, _ast.Name)
                     and n.func.id in specs}
-    want = {d[len("spec_"):] for d in spec_names_in(goal, rec)}
+    want = {d[len("spec_"):] for d in spec_names_in(goal, rec)} | set(extra)
     # non-recursive specs are inlined, so their callees already occur in the goal term
     frontier = list(want)
     while frontier:
